@@ -669,6 +669,13 @@ pub fn bytes_roundtrip(bytes: &[u8], obs: &mut Obs) -> PropResult {
 			return Err(format!("raw_class_file::ClassFile::read rejects a well-formed class file: {e}"));
 		}
 	};
+	// history: a write into a sink that gives up half way (a buffer that is too small) must leave nothing behind that
+	// shows up in the next write
+	{
+		let mut small = vec![0u8; bytes.len() / 2];
+		let mut sink: &mut [u8] = &mut small[..];
+		let _ = v.write(&mut sink);
+	}
 	let mut out = Vec::new();
 	v.write(&mut out).map_err(|e| format!("write failed: {e}"))?;
 	if out != bytes {
@@ -1001,6 +1008,13 @@ fn raw_value(case: &RawCase, obs: &mut Obs) -> PropResult {
 	let bytes = v.to_bytes();
 	if bytes.len() != v.length() {
 		return Err(format!("length() announces {} bytes, to_bytes() wrote {}", v.length(), bytes.len()));
+	}
+	// history: a write into a sink that gives up half way (a buffer that is too small) must leave nothing behind that
+	// shows up in the next write
+	{
+		let mut small = vec![0u8; bytes.len() / 2];
+		let mut sink: &mut [u8] = &mut small[..];
+		let _ = v.write(&mut sink);
 	}
 	let mut out = Vec::new();
 	v.write(&mut out).map_err(|e| format!("write failed: {e}"))?;
